@@ -14,6 +14,7 @@ use crate::context::shrink_context;
 use crate::names::shrink_identifier;
 use crate::shrinking::{Shrinking, ShrinkingState};
 use crate::types::shrink_ty;
+use printer::Print;
 
 use std::collections::BTreeSet;
 use std::rc::Rc;
@@ -180,10 +181,21 @@ fn lift(statement: FsStatement, state: &mut ShrinkingState) -> Rc<axcut::syntax:
         });
     }
 
-    let label = fresh_identifier(
+    let mut label = fresh_identifier(
         state.max_id,
         &("lift_".to_string() + state.current_label + "_"),
     );
+    // the printed form of the label must not coincide with the name of a top-level function
+    while state
+        .used_labels
+        .iter()
+        .any(|used| used.print_to_string(None) == label.print_to_string(None))
+    {
+        label = fresh_identifier(
+            state.max_id,
+            &("lift_".to_string() + state.current_label + "_"),
+        );
+    }
     let context = shrink_context(context.into(), state.codata);
     // we substitute the fresh variables for the free ones in the body
     let body = statement.subst_sim(&subst).shrink(state);
